@@ -387,6 +387,11 @@ func Normalize(repo string, env []string) (map[string][]byte, []string, error) {
 					// fall back to the goto-based statement inliner
 					nc, ok := gotoInline(fset, cd.pk, u.file, u.call, cd.fd, calleeContent, content)
 					if !ok {
+						// the call sits inside a larger expression (return f(x), nil / if f(x) {):
+						// give it a statement of its own first, the next round inlines that
+						nc, ok = hoistCall(fset, u.file, u.call, content)
+					}
+					if !ok {
 						failed[cd.name] = true
 						break
 					}
@@ -512,6 +517,9 @@ func gotoInline(fset *token.FileSet, pk *packages.Package, callerFile *ast.File,
 	}
 	ast.Inspect(fd.Body, func(n ast.Node) bool {
 		switch x := n.(type) {
+		case *ast.FuncLit:
+			// statements of a nested function literal belong to that function
+			return false
 		case *ast.DeferStmt, *ast.GoStmt, *ast.LabeledStmt, *ast.BranchStmt:
 			if b, ok := x.(*ast.BranchStmt); ok && b.Label == nil {
 				return true
@@ -749,6 +757,173 @@ func wholeCall(s ast.Stmt, call *ast.CallExpr) bool {
 		if as, ok := x.Init.(*ast.AssignStmt); ok {
 			return len(as.Rhs) == 1 && as.Rhs[0] == call
 		}
+	}
+	return false
+}
+
+var hoistSeq int
+
+// hoistCall rewrites the statement S containing call so that the call becomes
+// `vsaHn := call` immediately before S and S uses vsaHn instead. It applies
+// only when the call is the first thing S evaluates that could have an effect
+// (everything evaluated before it is an identifier, literal, selector or an
+// operator over those) and is not under the right operand of && / ||, so the
+// order of evaluation is unchanged.
+func hoistCall(fset *token.FileSet, file *ast.File, call *ast.CallExpr, content []byte) ([]byte, bool) {
+	var stmt ast.Stmt
+	ast.Inspect(file, func(n ast.Node) bool {
+		var l []ast.Stmt
+		switch x := n.(type) {
+		case *ast.BlockStmt:
+			l = x.List
+		case *ast.CaseClause:
+			l = x.Body
+		case *ast.CommClause:
+			l = x.Body
+		}
+		for _, s := range l {
+			if s.Pos() <= call.Pos() && call.End() <= s.End() {
+				stmt = s
+			}
+		}
+		return true
+	})
+	if stmt == nil || wholeCall(stmt, call) {
+		return nil, false
+	}
+	var roots []ast.Expr
+	switch x := stmt.(type) {
+	case *ast.ReturnStmt:
+		roots = x.Results
+	case *ast.ExprStmt:
+		roots = []ast.Expr{x.X}
+	case *ast.AssignStmt:
+		if x.Tok == token.DEFINE || x.Tok == token.ASSIGN {
+			for _, l := range x.Lhs {
+				if !simpleExpr(l) {
+					return nil, false
+				}
+			}
+			roots = x.Rhs
+		}
+	case *ast.IfStmt:
+		if x.Init == nil {
+			roots = []ast.Expr{x.Cond}
+		}
+	case *ast.SwitchStmt:
+		if x.Init == nil && x.Tag != nil {
+			roots = []ast.Expr{x.Tag}
+		}
+	}
+	if roots == nil {
+		return nil, false
+	}
+	// the call must be reached before anything non-simple is evaluated
+	found := false
+	var first func(e ast.Expr) bool // true: keep going (e fully simple); sets found when the call is the next effect
+	first = func(e ast.Expr) bool {
+		if found {
+			return false
+		}
+		if e == ast.Expr(call) {
+			found = true
+			return false
+		}
+		if !(e.Pos() <= call.Pos() && call.End() <= e.End()) {
+			return simpleExpr(e)
+		}
+		switch x := e.(type) {
+		case *ast.ParenExpr:
+			return first(x.X)
+		case *ast.UnaryExpr:
+			if x.Op == token.ARROW {
+				return false
+			}
+			return first(x.X)
+		case *ast.StarExpr:
+			return first(x.X)
+		case *ast.BinaryExpr:
+			if !first(x.X) {
+				return false
+			}
+			if x.Op == token.LAND || x.Op == token.LOR {
+				return false // the right operand is evaluated conditionally
+			}
+			return first(x.Y)
+		case *ast.SelectorExpr:
+			return first(x.X)
+		case *ast.IndexExpr:
+			return first(x.X) && first(x.Index)
+		case *ast.CallExpr:
+			if !first(x.Fun) {
+				return false
+			}
+			for _, a := range x.Args {
+				if !first(a) {
+					return false
+				}
+			}
+			return false // the outer call itself is an effect
+		case *ast.KeyValueExpr:
+			return first(x.Value)
+		case *ast.CompositeLit:
+			for _, el := range x.Elts {
+				if !first(el) {
+					return false
+				}
+			}
+			return true
+		}
+		return false
+	}
+	for _, r := range roots {
+		if !first(r) {
+			break
+		}
+	}
+	if !found {
+		return nil, false
+	}
+	hoistSeq++
+	tmp := fmt.Sprintf("vsaH%d", hoistSeq)
+	so, eo := fset.Position(stmt.Pos()).Offset, fset.Position(stmt.End()).Offset
+	co, ce := fset.Position(call.Pos()).Offset, fset.Position(call.End()).Offset
+	if !(so <= co && ce <= eo && eo <= len(content)) {
+		return nil, false
+	}
+	var sb bytes.Buffer
+	sb.Write(content[:so])
+	sb.WriteString(tmp + " := ")
+	sb.Write(content[co:ce])
+	sb.WriteString("\n")
+	sb.Write(content[so:co])
+	sb.WriteString(tmp)
+	sb.Write(content[ce:])
+	out := sb.Bytes()
+	if f, err := format.Source(out); err == nil {
+		out = f
+	}
+	return out, true
+}
+
+// simpleExpr: evaluating e has no effect and cannot observe one (identifiers,
+// literals, selectors, and arithmetic / comparison over those).
+func simpleExpr(e ast.Expr) bool {
+	switch x := e.(type) {
+	case nil:
+		return true
+	case *ast.Ident, *ast.BasicLit:
+		return true
+	case *ast.ParenExpr:
+		return simpleExpr(x.X)
+	case *ast.SelectorExpr:
+		return simpleExpr(x.X)
+	case *ast.UnaryExpr:
+		return x.Op != token.ARROW && simpleExpr(x.X)
+	case *ast.BinaryExpr:
+		return simpleExpr(x.X) && simpleExpr(x.Y)
+	case *ast.StarExpr:
+		return simpleExpr(x.X)
 	}
 	return false
 }
